@@ -36,7 +36,7 @@ def plan(tier, seed):
     specs = [{'kind': 'lib', 'lib': l, 'part': p, 'parts': 3, 'subsets': 3 if q else 'all'} for l in H.LIBS for p in range(3)]
     specs += [{'kind': 'shapes', 'n': 1000 if q else 20000} for _ in range(4 if q else 8)]
     specs += [{'kind': 'hier', 'n': 300 if q else 8000} for _ in range(4 if q else 8)]
-    specs += [{'kind': 'witness'}]
+    specs += [{'kind': 'witness'}, {'kind': 'corpus'}]
     specs += [{'kind': 'editcopy', 'n': 400 if q else 8000} for _ in range(2 if q else 4)]
     return specs
 
@@ -46,7 +46,7 @@ def conclude(agg):
     r = [f'monitor counter {k} is zero' for k in ('lib_cells', 'lib_instances', 'shape_cases', 'hier_cases', 'lane_checks', 'name_checks', 'op/copy', 'op/pickle',
                                                   'op/eliminate', 'op/resolve', 'shape/output_read_internally', 'shape/ignored_input', 'shape/empty', 'shape/multi_output',
                                                   'unconnected_input_pins', 'unconnected_output_pins', 'sequential_cells', 'directed_dead_reader_before_multi_output_driver',
-                                                  'editcopy_cases', 'editcopy_index_order_differs_from_creation_order', 'copy_pickle_order_checks')
+                                                  'editcopy_cases', 'editcopy_index_order_differs_from_creation_order', 'copy_pickle_order_checks', 'corpus_roundtrips')
          if c.get(k, 0) == 0]
     if len(agg['sets'].get('libs', ())) < 5:
         r.append('not all five libraries visited')
@@ -465,12 +465,55 @@ def editcopy_case(ctx, rng, idx):
         ctx.sample(case)
 
 
+def corpus_case(ctx):
+    """the shipped b15 netlist with branch forks, resolved: 44k nodes / 54k lines - sizes beyond 32767 - through pickle and copy"""
+    import os
+    from .. import REPO
+    from ..ref_circuit import name_structure
+    from kyupy import verilog
+    from kyupy.techlib import SAED32
+    from kyupy.logic_sim import LogicSim
+    case = {'kind': 'corpus', 'file': 'b15_2ig.v.gz'}
+    with ctx.guard('transformation-raises', case):
+        c = verilog.load(os.path.join(REPO, 'tests', 'b15_2ig.v.gz'), tlib=SAED32, branchforks=True)
+        c.resolve_tlib_cells(SAED32)
+        ctx.count('corpus_nodes', len(c.nodes))
+        ref_struct = name_structure(c)
+        names = [n.name for n in c.s_nodes]
+        n = 16
+        stim = np.random.default_rng(5).integers(0, 256, size=(len(names), 3, (n + 7) // 8), dtype=np.uint8)
+
+        def response(circ):
+            sim = LogicSim(circ, sims=n, m=2)
+            sim.s[0] = stim
+            sim.s_to_c(); sim.c_prop(); sim.c_to_s()
+            return sim.s[1][:, 0].copy()
+        ref = response(c)
+        for op in ('pickle', 'copy'):
+            c2 = pickle.loads(pickle.dumps(c)) if op == 'pickle' else c.copy()
+            ctx.count('op/' + op)
+            ctx.count('corpus_roundtrips')
+            if [x.name for x in c2.s_nodes] != names:
+                ctx.violation('port-state-order', f'{op} of the resolved b15 netlist ({len(c.nodes)} nodes) changes names/order of ports and state elements', case)
+                continue
+            if name_structure(c2) != ref_struct:
+                ctx.violation('function-changed', f'{op} of the resolved b15 netlist ({len(c.nodes)} nodes, {len(c.lines)} lines): connections differ from the original', case)
+                continue
+            got = response(c2)
+            ctx.count('lane_checks', n * len(names))
+            if not np.array_equal(got, ref):
+                ctx.violation('function-changed', f'{op} of the resolved b15 netlist: the same test vectors give another response', case)
+    ctx.case(case, True, key=case)
+
+
 def run(spec, ctx):
     kind = spec['kind']
     if kind == 'lib':
         lib_shard(ctx, spec)
     elif kind == 'witness':
         witness(ctx)
+    elif kind == 'corpus':
+        corpus_case(ctx)
     elif kind == 'editcopy':
         for i in range(spec['n']):
             editcopy_case(ctx, KRandom(f'C10ec/{spec["seed"]}/{spec["shard"]}/{i}'), i)
@@ -487,6 +530,8 @@ def replay(case, ctx):
         lib_case(ctx, case['lib'], case['cell'], cd, set(case['in']), set(case['out']), case['ops'])
     elif k == 'witness':
         witness(ctx)
+    elif k == 'corpus':
+        corpus_case(ctx)
     elif k == 'hier':
         hier_check(ctx, case, 99)
     elif k == 'editcopy':
